@@ -23,7 +23,8 @@ OTHER_ATTRS = ["#[allow(unused)]", "#[inline]", '#[cfg(feature = "x")]', "#[must
                '#[doc = "not #[cfg(test)]"]', "#[specta::specta]", "#[deprecated]"]
 VIS = ["pub ", "", "pub(crate) ", "pub(super) "]
 RETS = [(None, ("void",)), ("String", ("str",)), ("i32", ("num",)), ("bool", ("bool",)), ("Result<String, String>", ("str",)),
-        ("Vec<u8>", ("arr", ("num",))), ("Option<f64>", ("union", (("null",), ("num",)))), ("()", ("void",)), ("Result<(), String>", ("void",))]
+        ("Vec<u8>", ("arr", ("num",))), ("HashSet<String>", ("arr", ("str",))), ("Result<BTreeSet<u32>, String>", ("arr", ("num",))),
+        ("Option<HashSet<bool>>", ("union", (("arr", ("bool",)), ("null",)))), ("(i32, String)", ("tuple", (("num",), ("str",)))), ("HashMap<String, Vec<i32>>", ("rec", ("str",), ("arr", ("num",)))), ("Option<f64>", ("union", (("null",), ("num",)))), ("()", ("void",)), ("Result<(), String>", ("void",))]
 DIRS = ["", "commands", "commands/nested", "a/b/c/d", "my_target", "targets", "target_old", "git", "src_target/x", ".hidden", "mod.rs.d",
         "with space/sub dir", "ünï/côdé", "日本", "a-b.c/d+e", "UPPER/Case", "x/" * 12 + "deep"]
 
